@@ -73,7 +73,7 @@ def role_tables(path=CAP_LEAN):
 
 
 def need_addrinfo(md):
-    return [4] if md == 0 else [8] if md == 1 else [4, 8]
+    return [4] if md == 0 else [8]
 
 
 def _mode_relevant(path=CAP_LEAN):
@@ -280,14 +280,29 @@ def _flag_field(mod):
 
 
 def flag_writes(mod, gep):
-    """Every store to the flag word / whole-VM overwrite, classified."""
+    """Every store to the flag word / whole-VM overwrite / other way to reach the word, classified:
+       zero    store of the constant 0
+       or      store of `load(flag word) | x`
+       copy    janet_go_thread_subr shape: `janet_init(); janet_vm.sandbox_flags = msg->argi` (the value is a load of field 1
+               of the JanetEVGenericMessage parameter, janet_init is called earlier in the same block, no other flag store between)
+       vmcopy  memcpy/memmove/memset over the whole janet_vm
+       addr    the address of the word is used for something else than a load / store (it could be written through)
+       viaptr  field 33 (the flag word) is addressed through a JanetVM* that is not the constant @janet_vm
+       other   anything else"""
     out = []
+    field = re.search(r'i32 0, i32 (\d+)\)$', gep).group(1)
+    viaptr = re.compile(r'getelementptr inbounds %struct\.JanetVM, %struct\.JanetVM\* %[\w.]+, i32 0, i32 ' + field + r'\b')
     for name in mod.order:
         f = mod.functions[name]
         for b in f.blocks:
             for k, i in enumerate(b.insts):
+                if viaptr.search(i.text):
+                    out.append((name, "viaptr"))
                 if i.kind == "store" and gep in i.text:
-                    m = re.match(r'store i32 (\S+), ', i.text)
+                    m = re.match(r'store i32 (\S+), i32\* ' + re.escape(gep) + r',', i.text)
+                    if not m:
+                        out.append((name, "addr"))        # the address itself is the stored value
+                        continue
                     val = m.group(1)
                     kind = "other"
                     if val == "0":
@@ -297,13 +312,76 @@ def flag_writes(mod, gep):
                         defs = {x.text.split(" = ")[0]: x.text for x in b.insts[:k] if " = " in x.text}
                         d = defs.get(val, "")
                         mo = re.match(r'%\d+ = or i32 (%\d+), (%\d+)', d)
+                        ml = re.match(r'%\d+ = load i32, i32\* (%\d+),', d)
                         if mo and any(gep in defs.get(o, "") and " load i32" in defs.get(o, "") for o in mo.groups()):
                             kind = "or"
-                        elif name == "janet_go_thread_subr":
-                            kind = "copy"     # (uint32_t) args.argi ; provenance checked dynamically (thread inheritance test)
+                        elif ml:
+                            g = defs.get(ml.group(1), "")
+                            mg = re.match(r'%\d+ = getelementptr inbounds %struct\.JanetEVGenericMessage, %struct\.JanetEVGenericMessage\* %(\d+), i32 0, i32 1$', g)
+                            before = b.insts[:k]
+                            inits = [j for j, x in enumerate(before) if x.kind == "call" and x.callee == "janet_init"]
+                            if mg and int(mg.group(1)) < f.params and inits and \
+                                    not any(x.kind == "store" and gep in x.text for x in before[inits[-1]:]):
+                                kind = "copy"
                     out.append((name, kind))
                 elif i.kind == "call" and i.callee and i.callee.startswith("llvm.mem") and i.args and "@janet_vm to i8*" in i.args[0][0] and "getelementptr" not in i.args[0][0]:
                     out.append((name, "vmcopy"))
+                elif gep in i.text and not re.match(r'%[\w.]+ = load i32, i32\* ' + re.escape(gep) + r',', i.text):
+                    out.append((name, "addr"))
+    return out
+
+
+def thread_start_shape(mod, gep, handovers, spawners):
+    """How a new thread gets its flag word: every site that hands `janet_go_thread_subr` (the function with the `copy` store)
+    to a spawner must put the CURRENT flag word into the message field / argument that the copy reads.
+    -> list of (function, fact)."""
+    out = []
+    starters = sorted(set(n for n, k in flag_writes(mod, gep) if k == "copy"))
+    ldflag = re.compile(r'(%[\w.]+) = load i32, i32\* ' + re.escape(gep) + r',')
+    for st in starters:
+        out.append((st, "janet_init; flags := msg.argi"))
+        for name in mod.order:
+            f = mod.functions[name]
+            for b in f.blocks:
+                for k, i in enumerate(b.insts):
+                    if not (st in i.refs or (i.kind == "call" and i.callee == st)):
+                        continue
+                    if i.kind == "call" and i.callee == st:
+                        out.append((name, "direct call of " + st))         # not a thread start we know
+                        continue
+                    if not (i.kind == "call" and i.callee in spawners):
+                        out.append((name, "address of %s used outside a spawner call" % st))
+                        continue
+                    before = b.insts[:k]
+                    defs = {x.text.split(" = ")[0]: x.text for x in before if " = " in x.text}
+                    fact = "unverified hand-over via " + i.callee
+                    if i.callee == "janet_ev_threaded_call" and len(i.args) >= 2:
+                        msg = i.args[1][1]
+                        fld = re.compile(r'(%[\w.]+) = getelementptr inbounds %struct\.JanetEVGenericMessage, %struct\.JanetEVGenericMessage\* ' + re.escape(msg) + r', i32 0, i32 1$')
+                        slots = set(m.group(1) for m in (fld.match(x.text) for x in before) if m)
+                        stores = [x for x in before if x.kind == "store" and any(re.match(r'store i32 \S+, i32\* ' + re.escape(sl) + r',', x.text) for sl in slots)]
+                        if stores:
+                            v = re.match(r'store i32 (\S+),', stores[-1].text).group(1)
+                            if ldflag.match(defs.get(v, "")):
+                                fact = "janet_ev_threaded_call: msg.argi := flags"
+                    elif i.callee == "janet_ev_threaded_await" and len(i.args) >= 3:
+                        if ldflag.match(defs.get(i.args[2][1], "")):
+                            fact = "janet_ev_threaded_await: argi := flags"
+                    out.append((name, fact))
+    # janet_ev_threaded_await(fp, tag, argi, argp) forwards its argi parameter as msg.argi and its fp to janet_ev_threaded_call
+    f = mod.functions.get("janet_ev_threaded_await")
+    fact = "unverified"
+    if f is not None and f.params == 4:
+        txt = "\n".join(i.text for b in f.blocks for i in b.insts)
+        m = re.search(r'store i32 %2, i32\* (%\d+),', txt)
+        if m:
+            slot = m.group(1)
+            m2 = re.search(r'(%\d+) = load i32, i32\* ' + re.escape(slot) + r',[^\n]*\n(%\d+) = getelementptr inbounds %struct\.JanetEVGenericMessage, %struct\.JanetEVGenericMessage\* (%\d+), i32 0, i32 1\nstore i32 \1, i32\* \2,', txt)
+            calls = [i for b in f.blocks for i in b.insts if i.kind == "call" and i.callee == "janet_ev_threaded_call"]
+            nst = len(re.findall(r'store i32 \S+, i32\* ' + re.escape(slot) + r',', txt))
+            if m2 and nst == 1 and len(calls) == 1 and len(calls[0].args) >= 2 and calls[0].args[1][1] == m2.group(3):
+                fact = "msg.argi := parameter argi; janet_ev_threaded_call(fp, msg)"
+    out.append(("janet_ev_threaded_await", fact))
     return out
 
 
@@ -324,6 +402,7 @@ def extract(build, ir_text=None):
     gep = _flag_field(mod)
     M.flag_gep = gep
     M.flag_writes = flag_writes(mod, gep)
+    M.thread_start = thread_start_shape(mod, gep, None, spawners)
     M.defines = header_defines(tree)
     M.options = sandbox_options(mod)
     regs, methods = registration_tables(mod)
@@ -435,6 +514,7 @@ def extract(build, ir_text=None):
         if mf not in fn_ids:
             raise ExtractError("Cap.modeFunctions: function %s is not in the slice" % mf)
     M.mode_tracked, M.mode_untracked, M.mask_tracked, M.assert_choices = [], [], [], []
+    M.param_slot = {}
     for pf in M.param_modes:
         if pf not in fdefs:
             raise ExtractError("Cap.paramModes: function %s does not exist" % pf)
@@ -453,13 +533,14 @@ def extract(build, ir_text=None):
             if mode_ev:                       # two variables packed in one word: assignments keep the other half
                 mode_ev = {k: (("modeUpd", HI_KEEP, v[1]) if v[0] == "modeSet" else v) for k, v in mode_ev.items()}
                 mask_ev = {k: (("modeUpd", LO_KEEP, v[1]) if v[0] == "modeSet" else v) for k, v in mask_ev.items()}
-            mode_ev = dict(mode_ev, **mask_ev)
+            mode_ev = dict(mode_ev)
+            mode_ev.update(mask_ev)
         if name in M.param_modes:
             if mode_ev:
                 raise ExtractError("%s: Cap.paramModes function has a tracked local as well" % name)
             if name in M.escaping:
                 raise ExtractError("%s: Cap.paramModes function is address-taken (its parameter is not a constant)" % name)
-            _param_fixed(f, M.param_modes[name])
+            M.param_slot[name] = _param_fixed(f, M.param_modes[name])
         for b in f.blocks:
             evs = []
             for i in b.insts:
@@ -477,13 +558,20 @@ def extract(build, ir_text=None):
                 if op[0] == "choice":      # assert(c ? A : B): a fork (nop) to one assert node per constant; no condition modelled
                     nodes.append([fn_ids[name], ("nop",), []])
                     M.node_src.append((name, b.label, txt))
-                    alts = []
-                    for alt in op[1]:
-                        alts.append(len(nodes))
-                        nodes.append([fn_ids[name], alt, []])
-                        M.node_src.append((name, b.label, txt))
-                    nodes[ent][2] = list(alts)
-                    new_exits = alts
+                    heads, new_exits = [], []
+                    for alt in op[1]:          # each alternative is a chain of ops
+                        prev = None
+                        for aop in alt:
+                            cur_ = len(nodes)
+                            nodes.append([fn_ids[name], aop, []])
+                            M.node_src.append((name, b.label, txt))
+                            if prev is None:
+                                heads.append(cur_)
+                            else:
+                                nodes[prev][2] = [cur_]
+                            prev = cur_
+                        new_exits.append(prev)
+                    nodes[ent][2] = heads
                 else:
                     nodes.append([fn_ids[name], op, []])
                     M.node_src.append((name, b.label, txt))
@@ -684,10 +772,12 @@ def _param_fixed(f, idx):
             raise ExtractError("%s: parameter %d is modified / its address is used: %s" % (f.name, idx, t[:100]))
     if n != 1:
         raise ExtractError("%s: parameter %d spilled %d times" % (f.name, idx, n))
+    return slot
 
 
-def _assert_arg(f, b, i):
+def _assert_arg(f, b, i, pslot=None):
     """Non-constant argument of a janet_sandbox_assert call: ('choice', [c1, c2..]) for select/phi of constants,
+    ('pchoice', c_if_nonzero, c_if_zero) for `p ? A : B` on the tracked parameter (spilled to `pslot`),
     ('var', alloca) for a load of an i32 local; ExtractError otherwise."""
     val = i.args[0][1] if i.args else ""
     d = None
@@ -698,9 +788,15 @@ def _assert_arg(f, b, i):
             d = x.text
     if d is None:
         raise ExtractError("janet_sandbox_assert with a non-constant argument in %s (no definition of %s in the block)" % (f.name, val))
-    m = re.match(r'%[\w.]+ = select i1 %[\w.]+, i32 (-?\d+), i32 (-?\d+)$', d)
+    m = re.match(r'%[\w.]+ = select i1 (%[\w.]+), i32 (-?\d+), i32 (-?\d+)$', d)
     if m:
-        return ("choice", [int(m.group(1)) & 0xFFFFFFFF, int(m.group(2)) & 0xFFFFFFFF])
+        a_, b_ = int(m.group(2)) & 0xFFFFFFFF, int(m.group(3)) & 0xFFFFFFFF
+        if pslot is not None:
+            defs = {x.text.split(" = ")[0]: x.text for x in b.insts if " = " in x.text}
+            mc = re.match(r'%[\w.]+ = icmp ne i32 (%[\w.]+), 0$', defs.get(m.group(1), ""))
+            if mc and re.match(r'%[\w.]+ = load i32, i32\* ' + re.escape(pslot) + r',', defs.get(mc.group(1), "")):
+                return ("pchoice", a_, b_)
+        return ("choice", [a_, b_])
     m = re.match(r'%[\w.]+ = phi i32 (.*)$', d)
     if m:
         inc = re.findall(r'\[\s*(\S+),\s*%[\w.]+\s*\]', m.group(1))
@@ -782,9 +878,12 @@ def _events(M, fname, i, fn_ids, fdefs, blk=None, var_asserts=()):
             if id(i) in var_asserts:
                 evs.append((("assertMd", SHIFT), i.text))
             elif len(i.const_args) != 1 or i.const_args[0] is None:
-                r = _assert_arg(fdefs[fname], blk, i)          # raises ExtractError when it is not select/phi of constants
-                M.assert_choices.append((fname, r[1]))
-                evs.append((("choice", [("assert", c_) for c_ in r[1]]), i.text))
+                r = _assert_arg(fdefs[fname], blk, i, M.param_slot.get(fname))   # raises ExtractError when it is not select/phi of constants
+                M.assert_choices.append((fname,) + tuple(r))
+                if r[0] == "pchoice":          # p ? A : B on the tracked parameter: two guarded arms
+                    evs.append((("choice", [[("modeGuard", 0, False), ("assert", r[1])], [("modeGuard", 0, True), ("assert", r[2])]]), i.text))
+                else:
+                    evs.append((("choice", [[("assert", c_)] for c_ in r[1]]), i.text))
             else:
                 evs.append((("assert", i.const_args[0] & 0xFFFFFFFF), i.text))
         elif c in sens:
@@ -801,7 +900,9 @@ def _events(M, fname, i, fn_ids, fdefs, blk=None, var_asserts=()):
             m0 = 0
             if c in M.param_modes:
                 ai = M.param_modes[c]
-                m0 = i.const_args[ai] if ai < len(i.const_args) and i.const_args[ai] is not None and i.const_args[ai] in (0, 1) else 2
+                if ai >= len(i.const_args) or i.const_args[ai] is None or i.const_args[ai] < 0:
+                    raise ExtractError("%s: argument %d of %s (Cap.paramModes) is not a non-negative integer constant" % (fname, ai, c))
+                m0 = i.const_args[ai]
             evs.append((("call", fn_ids[c], m0), i.text))
         elif c in fdefs:
             if c in M.may_grow:
@@ -882,6 +983,10 @@ def certify(M):
                     out, om = k, (mode & op[1]) | op[2]
                 elif op[0] == "assertMd":
                     out = _minimise(list(k) + _bits(mode >> op[1]))
+                elif op[0] == "modeGuard":
+                    if (mode == op[1]) != op[2]:
+                        continue
+                    out = k
                 elif op[0] == "call":
                     g = op[1]
                     np_ = _meet(fpre[g].get(op[2]), k)
@@ -970,6 +1075,9 @@ def check(M, C):
                 edges((m & op[1]) | op[2], lambda g: _imp(g, k))
             elif op[0] == "assertMd":
                 edges(m, lambda g: (g & (m >> op[1])) != 0 or _imp(g, k))
+            elif op[0] == "modeGuard":
+                if (m == op[1]) == op[2]:
+                    edges(m, lambda g: _imp(g, k))
             elif op[0] == "havoc":
                 edges(m, lambda g: False)
             elif op[0] == "call":
@@ -1033,6 +1141,8 @@ def render(M, C, origin="current tree"):
     o.append("abbrev options : List (String × Nat) := [" + ", ".join("(%s, %d)" % (_lstr(k), v) for k, v in M.options) + "]\n")
     o.append("/-- every store to `janet_vm.sandbox_flags` / overwrite of the whole `janet_vm` in the program: (function, kind) -/")
     o.append("abbrev flagWrites : List (String × String) := [" + ", ".join("(%s, %s)" % (_lstr(a), _lstr(b)) for a, b in M.flag_writes) + "]\n")
+    o.append("/-- how a new thread gets its flag word: the `copy` store and every site that hands its function to a spawner (tools/gen/sandbox.py thread_start_shape) -/")
+    o.append("abbrev threadStart : List (String × String) := [" + ", ".join("(%s, %s)" % (_lstr(a), _lstr(b)) for a, b in M.thread_start) + "]\n")
     o.append("/-- functions that execute an overwrite of the whole VM state and are reachable (direct calls) from an address-taken function -/")
     o.append("abbrev externals : List String := [" + ", ".join(_lstr(x) for x in M.externals) + "]\n")
     o.append("/-- untrusted: index of each external in `Cap.allKnown` (an unclassified symbol gets an index past the end) -/")
@@ -1072,6 +1182,8 @@ def render(M, C, origin="current tree"):
             return "(.modeUpd %d %d)" % (t[1], t[2])
         if t[0] == "assertMd":
             return "(.assertMd %d)" % t[1]
+        if t[0] == "modeGuard":
+            return "(.modeGuard %d %s)" % (t[1], "true" if t[2] else "false")
         if t[0] == "havoc":
             return ".havoc"
         if t[0] == "ret":
